@@ -81,7 +81,7 @@ pub fn spec(id: &str) -> Spec {
                 "C06" => ">= 1 crash that lost un-fsynced writes followed by a restart",
                 _ => ">= 20 Ready rounds with >= 1 async round or restart and >= 5 applied entries",
             };
-            Spec { profile: p, quick_runs: quick, thorough_runs: thorough, nontrivial: nt, rule }
+            Spec { profile: p, quick_runs: 100_000, thorough_runs: thorough, nontrivial: nt, rule }
         }
         "C08" => {
             p.name = "reads";
